@@ -378,7 +378,11 @@ def do_gen(ctx, inst, limit):
 def do_free(ctx, inst, reps):
     d = tlc.workdir("free_%s_%s" % (ctx.pid, inst["name"]))
     try:
-        progs = [inst["programs"][i % len(inst["programs"])] for i in range(reps)]
+        rnd = random.Random(ctx.seed * 7919 + len(ctx.frees))
+        base = inst["programs"]
+        # the instance's own programs for the first third of the runs, random variants of them afterwards
+        progs = [base[i % len(base)] if i < max(1, reps // 3) else families.vary(base[i % len(base)], rnd)
+                 for i in range(reps)]
         res, tr = pipeline.freerun(inst, progs, d, seed=ctx.seed)
         hung = [x for x in res if x["outcome"] != "finished"]
         slow = [x for x in res if x.get("stop_ms", 0) >= 2500]
